@@ -115,6 +115,17 @@ func addrRoot(v ssa.Value) ssa.Value {
 func isParamNamed(name string) func(ssa.Value) bool {
 	return func(v ssa.Value) bool {
 		p, ok := v.(*ssa.Parameter)
-		return ok && p.Name() == name
+		if !ok {
+			return false
+		}
+		if p.Name() == name {
+			return true
+		}
+		if f := p.Parent(); f != nil {
+			if i := paramIdx(f, name); i >= 0 {
+				return f.Params[i] == p
+			}
+		}
+		return false
 	}
 }
